@@ -1458,6 +1458,19 @@ func w1Gen(c *simrt.Choice, prop, tier string) any {
 			cl.Ops = append(cl.Ops, w1Op{K: []string{"sub", "rpc", "pong", "hist", "pub", "unsub", "send", "ping"}[c.Intn(8)], Ch: pickCh()})
 		}
 		cl.Ops = append(cl.Ops, w1Op{K: "connect"})
+		if prop == "C09" && c.Intn(3) == 0 {
+			// an asynchronous sub_refresh handler completing after the subscription it
+			// was validated for ended (or was replaced): the command is still owed a reply
+			for _, ch := range sc.Channels {
+				if chHas(ch, 'x') {
+					cl.Ops = append(cl.Ops, w1Op{K: "sub", Ch: ch}, w1Op{K: "subref", Ch: ch, DelayUs: []int{3000, 100, 200000}[c.Intn(3)]}, w1Op{K: "unsub", Ch: ch})
+					if c.Intn(2) == 0 {
+						cl.Ops = append(cl.Ops, w1Op{K: "sub", Ch: ch})
+					}
+					break
+				}
+			}
+		}
 		nops := 1 + c.Intn(maxOps)
 		for j := 0; j < nops; j++ {
 			var op w1Op
